@@ -287,8 +287,11 @@ def _k_positive(k: ast.AST):
             return False  # n - 1 is zero for n = 1
         if isinstance(k.op, (ast.FloorDiv, ast.Div)) and isinstance(k.right, ast.Constant) and isinstance(k.right.value, (int, float)) and k.right.value > 1:
             return False
-        if isinstance(k.op, ast.Add) and any(isinstance(x, ast.Constant) and isinstance(x.value, int) and x.value >= 1 for x in (k.left, k.right)):
-            return True
+        if isinstance(k.op, ast.Add):
+            l_, r_ = _k_positive(k.left), _k_positive(k.right)
+            if l_ is True or r_ is True:
+                return True  # a positive count plus a non-negative one
+            return None
         if isinstance(k.op, ast.Mult):
             return None
     return None
@@ -594,6 +597,17 @@ def r04_8(ctx: Ctx):
     return out
 
 
+def r04_9(ctx: Ctx):
+    """R04.9 an individual's fitness is a value of ITS objective in ITS sign: none is created with the sprout seed's fitness
+    (another level's objective) or with the sign-adapted value prepared for a minimiser (R02.12) - such a value was never
+    observed, so the reported best is not the best value the objective returned."""
+    out = []
+    for o in c02.r02_12(ctx):
+        o.rule = "R04.9"
+        out.append(o)
+    return out
+
+
 RULES = [
     ("R04.1", r04_1, 4),
     ("R04.2", r04_2, 14),
@@ -603,4 +617,5 @@ RULES = [
     ("R04.6", r04_6, 5),
     ("R04.7", r04_7, 3),
     ("R04.8", r04_8, 1),
+    ("R04.9", r04_9, 1),
 ]
